@@ -1,14 +1,17 @@
-(* GraphLock.v — the lock of direct parents, propagation along linkback derivations, and freshness of used nodes *)
+(* GraphLock.v — the (transitive) lock, propagation along linkback derivations, and freshness of used nodes *)
 From Coq Require Import ZArith List Bool Arith Lia.
 Import ListNotations.
 From OvldV Require Import Model.Graph Spec.Overlay Proofs.GraphTab Proofs.GraphBase Proofs.GraphUpd Proofs.GraphInv Proofs.GraphProps.
 
-(* ================= lock of the direct non-linkback parents ================= *)
+(* ================= lock ================= *)
+(* IA: the direct non-linkback parents of a used node are locked.   IB: a locked node has all its mixins locked. *)
 Definition LockInv (g : graph) : Prop :=
   forall c y m z, g_get g c = Some y -> n_compiled y = true -> n_linkback y = false ->
                   In m (n_mixins y) -> g_get g m = Some z -> n_locked z = true.
 
-(* node-wise relation under which LockInv is inherited: same mixins / linkback, no newly used node, locks only grow *)
+Definition NoE : nat -> Prop := fun _ => False.
+Definition LockClosed (g : graph) : Prop := LC NoE g.
+
 Definition lk_rel (x y : node) : Prop :=
   n_mixins y = n_mixins x /\ n_linkback y = n_linkback x /\ (n_compiled y = true -> n_compiled x = true) /\
   (n_locked x = true -> n_locked y = true).
@@ -19,6 +22,16 @@ Proof.
   intros g g' R Lg c y m z Ec Cy Ly Im Em.
   destruct (R _ _ Ec) as [x [Ex (R1 & R2 & R3 & _)]]. destruct (R _ _ Em) as [w [Ew (_ & _ & _ & R4)]].
   apply R4. eapply (Lg c x m w); eauto; congruence.
+Qed.
+
+(* same mixins and same lock flag everywhere: LC is inherited *)
+Lemma LC_rel : forall E g g',
+  (forall k y, g_get g' k = Some y -> exists x, g_get g k = Some x /\ n_mixins y = n_mixins x /\ n_locked y = n_locked x) ->
+  LC E g -> LC E g'.
+Proof.
+  intros E g g' R H k y q z Ek Lk NE Iq Eq.
+  destruct (R _ _ Ek) as [x [Ex [M1 L1]]]. destruct (R _ _ Eq) as [w [Ew [_ L2]]].
+  rewrite L2. eapply (H k x q w); eauto; congruence.
 Qed.
 
 Lemma gkeep_back : forall g g' k y, gkeep g g' -> g_get g' k = Some y -> exists x, g_get g k = Some x /\ keep x y.
@@ -35,12 +48,25 @@ Proof.
   intros Cy. pose proof (C k) as Ck. rewrite (compiled_b_get _ _ _ Ey), (compiled_b_get _ _ _ Ex) in Ck. congruence.
 Qed.
 
+Lemma set_own_back : forall g n t k y, g_get (g_mod g n (set_own t)) k = Some y ->
+  exists x, g_get g k = Some x /\ n_mixins y = n_mixins x /\ n_linkback y = n_linkback x /\
+            n_compiled y = n_compiled x /\ n_locked y = n_locked x.
+Proof.
+  intros g n t k y Ey. rewrite g_get_mod in Ey. destruct (Nat.eqb k n) eqn:Ek.
+  - apply Nat.eqb_eq in Ek. subst. destruct (g_get g n) as [x0|]; [|discriminate]. cbn in Ey. injection Ey as <-.
+    exists x0. cbn. repeat split; reflexivity.
+  - exists y. repeat split; auto.
+Qed.
+
 Lemma LockInv_set_own : forall g n t, LockInv g -> LockInv (g_mod g n (set_own t)).
 Proof.
-  intros g n t. apply LockInv_rel. intros k y Ey. rewrite g_get_mod in Ey. destruct (Nat.eqb k n) eqn:Ek.
-  - apply Nat.eqb_eq in Ek. subst. destruct (g_get g n); [|discriminate]. cbn in Ey. injection Ey as <-.
-    eexists. split; eauto. unfold lk_rel. cbn. auto.
-  - exists y. split; auto. unfold lk_rel. auto.
+  intros g n t. apply LockInv_rel. intros k y Ey. destruct (set_own_back _ _ _ _ _ Ey) as (x & Ex & A & B & C & D).
+  exists x. split; auto. unfold lk_rel. repeat split; auto; congruence.
+Qed.
+
+Lemma LC_set_own : forall E g n t, LC E g -> LC E (g_mod g n (set_own t)).
+Proof.
+  intros E g n t. apply LC_rel. intros k y Ey. destruct (set_own_back _ _ _ _ _ Ey) as (x & Ex & A & B & C & D). eauto.
 Qed.
 
 Lemma inv_mixin_lt : forall g c y m, Inv g -> g_get g c = Some y -> In m (n_mixins y) -> m < length g.
@@ -50,6 +76,12 @@ Proof.
   specialize (T _ Im). apply mterm_lt in T. lia.
 Qed.
 
+Lemma inv_ChildLb : forall g, Inv g -> ChildLb g.
+Proof.
+  intros g I p x c y Ep Ic Ec. destruct (inv_child _ I _ _ _ Ep Ic) as (y' & Ey' & _ & L). congruence.
+Qed.
+
+(* --- create --- *)
 Lemma LockInv_create : forall g ms lb, Inv g -> LockInv g -> LockInv (created g ms lb).
 Proof.
   intros g ms lb I Lg c y m z Ec Cy Ly Im Em.
@@ -63,21 +95,61 @@ Proof.
   - assert (c = length g) as -> by (apply g_get_lt in Ec; lia). rewrite Enew in Ec. injection Ec as <-. discriminate.
 Qed.
 
-Lemma LockInv_mixed : forall g n x ms, g_get g n = Some x -> n_compiled x = false -> LockInv g -> LockInv (mixed g n x ms).
+Lemma LC_create : forall g ms lb, Inv g -> LockClosed g -> LockClosed (created g ms lb).
 Proof.
-  intros g n x ms E C Lg c y m z Ec Cy Ly Im Em.
-  destruct (mixed_rel g n x ms E) as [L Old]. cbn zeta in Old.
-  assert (c < length g) as Lc by (rewrite <- L; eapply g_get_lt; eauto).
-  destruct (g_get_some _ _ Lc) as [x0 Ex0]. destruct (Old _ _ Ex0) as [y' [Ey' R]]. rewrite Ec in Ey'. injection Ey' as <-.
-  destruct R as (_ & R2 & _ & R4 & _ & R6 & _).
-  assert (m < length g) as Lm by (rewrite <- L; eapply g_get_lt; eauto).
-  destruct (g_get_some _ _ Lm) as [w Ew]. destruct (Old _ _ Ew) as [z' [Ez' Rz]]. rewrite Em in Ez'. injection Ez' as <-.
-  destruct Rz as (_ & _ & Rz3 & _). rewrite Rz3.
-  destruct (Nat.eqb c n) eqn:Ecn.
-  - apply Nat.eqb_eq in Ecn. subst c. rewrite E in Ex0. injection Ex0 as <-. congruence.
-  - rewrite R6 in Im. eapply (Lg c x0 m w); eauto; congruence.
+  intros g ms lb I H k y q z Ek Lk _ Iq Eq.
+  destruct (created_old g ms lb) as (L & Enew & Old).
+  destruct (Nat.lt_ge_cases k (length g)) as [Lk'|Lk'].
+  - destruct (g_get_some _ _ Lk') as [x Ex]. destruct (Old _ _ Ex) as [y' [Ey' R]]. rewrite Ek in Ey'. injection Ey' as <-.
+    destruct R as (_ & R2 & _ & R4 & _). rewrite R2 in Iq. rewrite R4 in Lk.
+    pose proof (inv_mixin_lt _ _ _ _ I Ex Iq) as Lq. destruct (g_get_some _ _ Lq) as [w Ew].
+    destruct (Old _ _ Ew) as [z' [Ez' Rz]]. rewrite Eq in Ez'. injection Ez' as <-.
+    destruct Rz as (_ & _ & _ & Rz4 & _). rewrite Rz4. eapply (H k x q w); eauto.
+  - assert (k = length g) as -> by (apply g_get_lt in Ek; lia). rewrite Enew in Ek. injection Ek as <-. discriminate.
 Qed.
 
+(* --- add_mixins: the graph with the new edges, before _update --- *)
+Lemma mixed_back : forall g n x ms k y, g_get g n = Some x -> g_get (mixed g n x ms) k = Some y ->
+  exists z, g_get g k = Some z /\ n_linkback y = n_linkback z /\ n_locked y = n_locked z /\ n_compiled y = n_compiled z /\
+            n_snap y = n_snap z /\ (k <> n -> n_mixins y = n_mixins z).
+Proof.
+  intros g n x ms k y E Ey. destruct (mixed_rel g n x ms E) as [L Old]. cbn zeta in Old.
+  assert (k < length g) as Lk by (rewrite <- L; eapply g_get_lt; eauto).
+  destruct (g_get_some _ _ Lk) as [z Ez]. destruct (Old _ _ Ez) as [y' [Ey' R]]. rewrite Ey in Ey'. injection Ey' as <-.
+  destruct R as (_ & R2 & R3 & R4 & R5 & R6 & _). exists z. repeat split; auto.
+  intros Ne. apply Nat.eqb_neq in Ne. rewrite Ne in R6. auto.
+Qed.
+
+Lemma LC_mixed : forall g n x ms, g_get g n = Some x -> n_locked x = false -> LockClosed g -> LockClosed (mixed g n x ms).
+Proof.
+  intros g n x ms E Lk H k y q z Ek Lky _ Iq Eq.
+  destruct (mixed_back _ _ _ _ _ _ E Ek) as (y0 & Ey0 & _ & A3 & _ & _ & A6).
+  destruct (mixed_back _ _ _ _ _ _ E Eq) as (z0 & Ez0 & _ & B3 & _).
+  assert (k <> n) as Ne by (intros ->; rewrite E in Ey0; injection Ey0 as <-; congruence).
+  rewrite A6 in Iq by auto. rewrite B3. eapply (H k y0 q z0); eauto; try congruence; try (unfold NoE; tauto).
+Qed.
+
+(* after add_mixins + _update *)
+Lemma LockInv_mixed_upd : forall g n x ms g', Inv g -> g_get g n = Some x -> wf_b (mixed g n x ms) = true ->
+  upd (length g) (mixed g n x ms) n = Some g' -> LockInv g -> LockInv g'.
+Proof.
+  intros g n x ms g' I E W U Lg c y m z Ec Cy Ly Im Em.
+  set (g2 := mixed g n x ms) in *.
+  pose proof (Inv_mixed g n x ms I E W) as I2. fold g2 in I2.
+  destruct (upd_spec _ _ _ _ U) as [(K & C & _) _].
+  destruct (Nat.eq_dec c n) as [->|Ne].
+  - pose proof (upd_UL _ _ _ _ (inv_ChildLb _ I2) U) as UL1.
+    eapply (UL1 n y m z); eauto. unfold visited. destruct (length g); cbn; rewrite Nat.eqb_refl; reflexivity.
+  - destruct (gkeep_back _ _ _ _ K Ec) as [y2 [Ey2 Ky]]. destruct (gkeep_back _ _ _ _ K Em) as [z2 [Ez2 Kz]].
+    destruct (mixed_back _ _ _ _ _ _ E Ey2) as (y0 & Ey0 & A2 & _ & A4 & _ & A6).
+    destruct (mixed_back _ _ _ _ _ _ E Ez2) as (z0 & Ez0 & _ & B3 & _).
+    destruct Ky as (_ & Km & _ & Kl & _). destruct Kz as (_ & _ & _ & _ & Klk & _).
+    apply Klk. rewrite B3. eapply (Lg c y0 m z0); eauto.
+    + pose proof (C c) as Cc. rewrite (compiled_b_get _ _ _ Ec), (compiled_b_get _ _ _ Ey2) in Cc. congruence.
+    + rewrite <- A6 by auto. rewrite Km. auto.
+Qed.
+
+(* --- first use --- *)
 Lemma LockInv_compile : forall g n g', Inv g -> compile g n = Some g' -> LockInv g -> LockInv g'.
 Proof.
   intros g n g' I C Lg c y m z Ec Cy Ly Im Em.
@@ -85,93 +157,144 @@ Proof.
   destruct (gkeep_back _ _ _ _ K Ec) as [x [Ex Kx]]. destruct (gkeep_back _ _ _ _ K Em) as [w [Ew Kw]].
   destruct Kx as (_ & Kx2 & _ & Kx4 & _). destruct Kw as (_ & _ & _ & _ & Kw5 & _).
   destruct (Nat.eq_dec c n) as [->|Ne].
-  - rewrite <- Kx2 in Im. rewrite <- Kx4 in Ly.
-    destruct (compile_locks _ _ _ _ _ _ C Ex Im Ew) as (z' & Ez' & Lz').
-    + destruct (mem n (n_children w)) eqn:M; auto. unfold mem in M. apply existsb_exists in M.
-      destruct M as [n' [In' En']]. apply Nat.eqb_eq in En'. subst n'.
-      destruct (inv_child _ I _ _ _ Ew In') as (x' & Ex' & _ & Lx'). congruence.
-    + congruence.
+  - pose proof (compile_UL _ _ _ (inv_ChildLb _ I) C) as UL1. eapply (UL1 n y m z); eauto.
   - destruct (compile_other _ _ _ _ _ C Ne Ex) as (y' & Ey' & Cy' & _). rewrite Ec in Ey'. injection Ey' as <-.
     apply Kw5. eapply (Lg c x m w); eauto; congruence.
 Qed.
 
-Lemma LockInv_step : forall g o, Inv g -> LockInv g -> late_mixin g o = false -> LockInv (step_g g o).
+Definition LK (g : graph) : Prop := LockInv g /\ LockClosed g.
+
+Lemma LK_modify : forall g n t g', upd (length g) (g_mod g n (set_own t)) n = Some g' -> LK g -> LK g'.
 Proof.
-  intros g o I Lg Late. unfold step_g. destruct o; cbn [step].
-  - destruct (valid_ids g mixins) eqn:V; [rewrite do_create_eq by auto; apply LockInv_create; auto | rewrite do_create_invalid by auto; auto].
-  - destruct (valid_ids g (n :: mixins)) eqn:V; [rewrite do_create_eq by auto; apply LockInv_create; auto | rewrite do_create_invalid by auto; auto].
-  - destruct (valid_ids g (n :: mixins)) eqn:V; [|rewrite do_create_invalid by auto; auto].
+  intros g n t g' U [A B]. split.
+  - eapply LockInv_upd; eauto. apply LockInv_set_own. auto.
+  - eapply upd_LC; eauto. apply LC_set_own. auto.
+Qed.
+
+Lemma LK_step : forall g o, Inv g -> LK g -> LK (step_g g o).
+Proof.
+  intros g o I [A B]. unfold step_g. destruct o; cbn [step].
+  - destruct (valid_ids g mixins) eqn:V; [rewrite do_create_eq by auto | rewrite do_create_invalid by auto; split; auto].
+    split; [apply LockInv_create | apply LC_create]; auto.
+  - destruct (valid_ids g (n :: mixins)) eqn:V; [rewrite do_create_eq by auto | rewrite do_create_invalid by auto; split; auto].
+    split; [apply LockInv_create | apply LC_create]; auto.
+  - destruct (valid_ids g (n :: mixins)) eqn:V; [|rewrite do_create_invalid by auto; split; auto].
     rewrite do_create_eq by auto. rewrite do_register_unfold.
     destruct (do_modify_cases (created g (n :: mixins) lb) (length g) (t_register sig l))
       as [(x & t & g' & E & Lk & F & U & ->)|[Nd Eq]].
-    + cbn. eapply LockInv_upd; eauto. apply LockInv_set_own. apply LockInv_create; auto.
+    + cbn. eapply LK_modify; eauto. split; [apply LockInv_create | apply LC_create]; auto.
     + destruct (do_modify (created g (n :: mixins) lb) (length g) (t_register sig l)) as [g2 o2].
-      cbn in *. destruct o2; cbn; auto. congruence.
-  - destruct (do_add_mixins_cases g n ms) as [(x & E & V & Lk & W & ->)|(_ & _ & ->)]; auto.
-    cbn. apply LockInv_mixed; auto. cbn in Late. unfold compiled_b in Late. rewrite E in Late. auto.
+      cbn in *. destruct o2; cbn; try (split; auto; fail); congruence.
+  - destruct (do_add_mixins_cases g n ms) as [(x & E & Lk & F & ->)|[(x & g' & E & V & Lk & F & W & U & ->)|(_ & -> & _)]];
+      try (split; auto; fail).
+    cbn. split.
+    + eapply LockInv_mixed_upd; eauto.
+    + eapply upd_LC; eauto. apply LC_mixed; auto.
   - rewrite do_register_unfold.
-    destruct (do_modify_cases g n (t_register sig l)) as [(x & t & g' & E & Lk & F & U & ->)|[_ ->]]; auto.
-    cbn. eapply LockInv_upd; eauto. apply LockInv_set_own. auto.
+    destruct (do_modify_cases g n (t_register sig l)) as [(x & t & g' & E & Lk & F & U & ->)|[_ ->]]; [|split; auto].
+    cbn. eapply LK_modify; eauto. split; auto.
   - unfold do_unregister.
-    destruct (do_modify_cases g n (fun t => Some (t_remove l t))) as [(x & t & g' & E & Lk & F & U & ->)|[_ ->]]; auto.
-    cbn. eapply LockInv_upd; eauto. apply LockInv_set_own. auto.
-  - unfold do_use. destruct (g_get g n) eqn:E; auto. destruct (n_compiled n0); auto.
-    destruct (compile g n) eqn:C; auto. cbn. eapply LockInv_compile; eauto.
+    destruct (do_modify_cases g n (fun t => Some (t_remove l t))) as [(x & t & g' & E & Lk & F & U & ->)|[_ ->]]; [|split; auto].
+    cbn. eapply LK_modify; eauto. split; auto.
+  - unfold do_use. destruct (g_get g n) eqn:E; [|split; auto]. destruct (n_compiled n0); [split; auto|].
+    destruct (compile g n) eqn:C; [|split; auto]. cbn. split.
+    + eapply LockInv_compile; eauto.
+    + eapply compile_LC; eauto.
 Qed.
 
-Lemma lock_partial_from : forall ops g, Inv g -> LockInv g -> no_late_mixin_from g ops = true -> LockInv (run_from g ops).
+Lemma LK_run_from : forall ops g, Inv g -> LK g -> LK (run_from g ops).
 Proof.
-  induction ops as [|o r IH]; cbn; intros g I Lg H; auto.
-  apply andb_true_iff in H. destruct H as [H1 H2]. apply negb_true_iff in H1.
-  apply IH; auto. - apply Inv_step; auto. - apply LockInv_step; auto.
+  induction ops as [|o r IH]; cbn; intros g I H; auto. apply IH; [apply Inv_step | apply LK_step]; auto.
 Qed.
 
-Lemma lock_partial : forall ops, no_late_mixin ops = true ->
-  forall c y m z, g_get (run ops) c = Some y -> n_compiled y = true -> n_linkback y = false ->
-                  In m (n_mixins y) -> g_get (run ops) m = Some z -> n_locked z = true.
+Lemma LK_nil : LK [].
+Proof. split; intros c y; intros; destruct c; discriminate. Qed.
+
+Lemma LK_run : forall ops, LK (run ops).
+Proof. intros. apply LK_run_from; [apply Inv_nil | apply LK_nil]. Qed.
+
+(* everything a locked node derives from is locked *)
+Lemma locked_up : forall g a m, Inv g -> LockClosed g -> Anc g a m ->
+  forall z, g_get g m = Some z -> n_locked z = true -> exists w, g_get g a = Some w /\ n_locked w = true.
 Proof.
-  intros ops H. apply (lock_partial_from ops [] Inv_nil); auto.
-  intros c y m z E. destruct c; discriminate.
+  intros g a m I H An. induction An as [|m x q Em Iq An IH]; intros z Ez Lz; eauto.
+  rewrite Em in Ez. injection Ez as <-.
+  pose proof (inv_mixin_lt _ _ _ _ I Em Iq) as Lq. destruct (g_get_some _ _ Lq) as [y Ey].
+  apply (IH y Ey). eapply (H m x q y); eauto.
+Qed.
+
+(* the full lock statement: once c is in use, every function c derives from through a path whose first derivation is not
+   a linkback one refuses modification (plain paths of any length, and plain-then-linkback paths) *)
+Lemma lock_full : forall ops c y m a, let g := run ops in
+  g_get g c = Some y -> n_compiled y = true -> n_linkback y = false -> In m (n_mixins y) -> Anc g a m ->
+  exists w, g_get g a = Some w /\ n_locked w = true.
+Proof.
+  intros ops c y m a g Ec Cy Ly Im An. pose proof (Inv_run ops) as I. destruct (LK_run ops) as [A B]. fold g in I, A, B.
+  pose proof (inv_mixin_lt _ _ _ _ I Ec Im) as Lm. destruct (g_get_some _ _ Lm) as [z Ez].
+  eapply locked_up; eauto.
 Qed.
 
 (* ================= linkback: every later change of an ancestor is visible ================= *)
 Lemma defns_none : forall f g k, g_get g k = None -> defns f g k = None.
 Proof. intros. destruct f; auto. rewrite defns_S, H. reflexivity. Qed.
 
-Lemma linkback_modify : forall g n x t g' k, Inv g -> g_get g n = Some x -> NoDup (keys t) ->
-  upd (length g) (g_mod g n (set_own t)) n = Some g' -> Lb g n k -> obs g' k = defns (length g') g' k.
+Lemma linkback_upd : forall g1 n g' k, Inv g1 -> n < length g1 ->
+  upd (length g1) g1 n = Some g' -> Lb g1 n k -> obs g' k = defns (length g') g' k.
 Proof.
-  intros g n x t g' k I E N U Hk.
-  set (g1 := g_mod g n (set_own t)) in *.
-  pose proof (Inv_set_own g n t I N) as I1. fold g1 in I1.
-  assert (length g1 = length g) as L1 by apply length_g_mod.
+  intros g1 n g' k I1 Ln U Hk.
   destruct (upd_spec _ _ _ _ U) as [(K & C & S) F].
-  assert (length g' = length g) as L' by (destruct K; congruence).
-  assert (Lb g1 n k) as Hk1 by (eapply Lb_same; [apply same_set_own | exact Hk]).
-  assert (visited (length g) g1 n k) as V.
-  { unfold visited. apply lb_b_complete; auto. rewrite <- L1. apply inv_cterm; auto. rewrite L1. eapply g_get_lt; eauto. }
+  assert (length g' = length g1) as L' by (destruct K; congruence).
+  assert (visited (length g1) g1 n k) as V.
+  { unfold visited. apply lb_b_complete; auto. apply inv_cterm; auto. }
   unfold obs. destruct (g_get g' k) eqn:Ek.
   - destruct (n_compiled n0) eqn:Ck; auto.
-    rewrite (F k n0 V Ek Ck). rewrite L1, L'. apply gkeep_defns. auto.
+    rewrite (F k n0 V Ek Ck). rewrite L'. apply gkeep_defns. auto.
   - symmetry. apply defns_none. auto.
 Qed.
 
-Lemma linkback : forall ops o k, let g := run ops in
-  (match o with ORegister _ _ _ | OUnregister _ _ => True | _ => False end) ->
-  snd (step g o) = Done -> Lb g (target g o) k ->
-  obs (step_g g o) k = defns (length (step_g g o)) (step_g g o) k.
+Lemma Lb_grow : forall g g', (forall a x, g_get g a = Some x -> exists y, g_get g' a = Some y /\ incl (n_children x) (n_children y)) ->
+  forall a k, Lb g a k -> Lb g' a k.
 Proof.
-  intros ops o k g Ho D Hk. pose proof (Inv_run ops) as I. fold g in I.
-  unfold step_g in *. destruct o; try contradiction; cbn [step target] in *.
-  - rewrite do_register_unfold in *.
-    destruct (do_modify_cases g n (t_register sig l)) as [(x & t & g' & E & Lk & F & U & Q)|[Nd _]]; [|congruence].
-    rewrite Q. cbn. eapply linkback_modify; eauto. eapply register_nodup; eauto. eapply inv_nodup; eauto.
-  - unfold do_unregister in *.
-    destruct (do_modify_cases g n (fun t => Some (t_remove l t))) as [(x & t & g' & E & Lk & F & U & Q)|[Nd _]]; [|congruence].
-    rewrite Q. cbn. eapply linkback_modify; eauto. injection F as <-. apply nodup_t_remove. eapply inv_nodup; eauto.
+  intros g g' H a k L. induction L; [constructor|].
+  destruct (H _ _ H0) as [y [Ey Inc]]. eapply lb_step; eauto.
 Qed.
 
-(* ================= used nodes stay equal to the overlay in histories without the two finding classes ================= *)
+Lemma Lb_to_mixed : forall g n x ms a k, g_get g n = Some x -> Lb g a k -> Lb (mixed g n x ms) a k.
+Proof.
+  intros g n x ms a k E. apply Lb_grow. intros b z Ez.
+  destruct (mixed_rel g n x ms E) as [L Old]. cbn zeta in Old. destruct (Old _ _ Ez) as [y [Ey R]].
+  exists y. split; auto. destruct R as (_ & _ & _ & _ & _ & _ & Hc). intros c Ic. apply Hc. auto.
+Qed.
+
+Lemma linkback : forall ops o k, let g := run ops in
+  is_modification o = true -> snd (step g o) = Done -> Lb g (target g o) k ->
+  obs (step_g g o) k = defns (length (step_g g o)) (step_g g o) k \/
+  (exists n ms, o = OAddMixins n ms /\ nself n ms = [] /\ step_g g o = g).
+Proof.
+  intros ops o k g Ho D Hk. pose proof (Inv_run ops) as I. fold g in I.
+  unfold step_g in *. destruct o; try discriminate; cbn [step target] in *.
+  - destruct (do_add_mixins_cases g n ms) as [(x & E & Lk & F & Q)|[(x & g' & E & V & Lk & F & W & U & Q)|(Nd & _ & _)]]; [| |congruence].
+    + right. exists n, ms. rewrite Q. auto.
+    + left. rewrite Q. cbn. destruct (mixed_rel g n x ms E) as [L _].
+      eapply linkback_upd with (g1 := mixed g n x ms) (n := n).
+      * apply Inv_mixed; auto. * rewrite L. eapply g_get_lt; eauto. * rewrite L. exact U. * apply Lb_to_mixed; auto.
+  - left. rewrite do_register_unfold in *.
+    destruct (do_modify_cases g n (t_register sig l)) as [(x & t & g' & E & Lk & F & U & Q)|[Nd _]]; [|congruence].
+    rewrite Q. cbn. pose proof (length_g_mod g n (set_own t)) as L.
+    eapply linkback_upd with (g1 := g_mod g n (set_own t)) (n := n).
+    + apply Inv_set_own; auto. eapply register_nodup; eauto. eapply inv_nodup; eauto.
+    + rewrite L. eapply g_get_lt; eauto. + rewrite L. exact U.
+    + eapply Lb_same; [apply same_set_own | exact Hk].
+  - left. unfold do_unregister in *.
+    destruct (do_modify_cases g n (fun t => Some (t_remove l t))) as [(x & t & g' & E & Lk & F & U & Q)|[Nd _]]; [|congruence].
+    rewrite Q. cbn. pose proof (length_g_mod g n (set_own t)) as L.
+    eapply linkback_upd with (g1 := g_mod g n (set_own t)) (n := n).
+    + apply Inv_set_own; auto. injection F as <-. apply nodup_t_remove. eapply inv_nodup; eauto.
+    + rewrite L. eapply g_get_lt; eauto. + rewrite L. exact U.
+    + eapply Lb_same; [apply same_set_own | exact Hk].
+Qed.
+
+(* ================= used nodes stay equal to the overlay in histories outside the finding class ================= *)
 Definition Fresh (g : graph) : Prop :=
   forall n x, g_get g n = Some x -> n_compiled x = true -> Some (n_snap x) = defns (length g) g n.
 
@@ -222,26 +345,24 @@ Proof.
     rewrite Sy'. apply Fg; auto. congruence.
 Qed.
 
-(* register / unregister on n: fresh again provided every used node deriving from n is reached by the propagation *)
-Lemma Fresh_modify : forall g n x t g', Inv g -> Fresh g -> g_get g n = Some x -> NoDup (keys t) ->
-  upd (length g) (g_mod g n (set_own t)) n = Some g' ->
+(* a change at n (own table or new mixins), then _update: fresh again provided every used node deriving from n is
+   reached by the propagation *)
+Lemma Fresh_upd_gen : forall g n g1 g', Inv g -> Fresh g -> Inv g1 -> length g1 = length g ->
+  (forall m, m <> n -> option_map dm (g_get g m) = option_map dm (g_get g1 m)) ->
+  (forall k x1, g_get g1 k = Some x1 -> exists x0, g_get g k = Some x0 /\ n_compiled x0 = n_compiled x1 /\ n_snap x0 = n_snap x1) ->
+  (forall a k, Lb g a k -> Lb g1 a k) ->
+  upd (length g) g1 n = Some g' -> n < length g ->
   (forall c, c < length g -> compiled_b g c = true -> anc_b (length g) g n c = true -> lb_b (length g) g n c = true) ->
   Fresh g'.
 Proof.
-  intros g n x t g' I Fg E N U Hexp k y Ey Cy.
-  set (g1 := g_mod g n (set_own t)) in *.
-  pose proof (same_set_own g n t) as Ssk. fold g1 in Ssk.
-  assert (length g1 = length g) as L1 by apply length_g_mod.
+  intros g n g1 g' I Fg I1 L1 Hdm Hfl HLb U Ln Hexp k y Ey Cy.
   destruct (upd_spec _ _ _ _ U) as [(K & C & S) F].
   assert (length g' = length g) as L' by (destruct K; congruence).
   destruct (gkeep_back _ _ _ _ K Ey) as [x1 [Ex1 _]].
   assert (k < length g) as Lk by (rewrite <- L1; eapply g_get_lt; eauto).
   assert (n_compiled x1 = true) as Cx1.
   { pose proof (C k) as Ck. rewrite (compiled_b_get _ _ _ Ey), (compiled_b_get _ _ _ Ex1) in Ck. congruence. }
-  assert (exists x0, g_get g k = Some x0 /\ n_compiled x0 = true /\ n_snap x0 = n_snap x1) as (x0 & Ex0 & Cx0 & Sx0).
-  { unfold g1 in Ex1. rewrite g_get_mod in Ex1. destruct (Nat.eqb k n) eqn:Ekn.
-    - apply Nat.eqb_eq in Ekn. subst. rewrite E in Ex1. cbn in Ex1. injection Ex1 as <-. eauto.
-    - eauto. }
+  destruct (Hfl _ _ Ex1) as (x0 & Ex0 & Cx0 & Sx0). rewrite Cx1 in Cx0.
   rewrite L', <- L1. rewrite <- (gkeep_defns _ _ K).
   destruct (lb_b (length g) g1 n k) eqn:V.
   - rewrite (F k y V Ey Cy). rewrite L1. reflexivity.
@@ -250,22 +371,40 @@ Proof.
     assert (anc_b (length g) g n k = false) as A.
     { destruct (anc_b (length g) g n k) eqn:A; auto.
       assert (lb_b (length g) g n k = true) as B by (apply Hexp; auto; unfold compiled_b; rewrite Ex0; auto).
-      rewrite (lb_b_same g g1 Ssk) in B. congruence. }
+      apply lb_b_sound in B. apply HLb in B.
+      rewrite lb_b_complete in V; [discriminate | | exact B].
+      rewrite <- L1. apply inv_cterm; auto. lia. }
     apply defns_local with (a := n); auto.
-    intros m Ne. unfold g1. rewrite g_get_mod_other; auto.
 Qed.
 
-Lemma Fresh_mixed : forall g n x ms, Inv g -> Fresh g -> g_get g n = Some x ->
-  (forall c, c < length g -> compiled_b g c = true -> anc_b (length g) g n c = false) ->
-  Fresh (mixed g n x ms).
+Lemma Fresh_modify : forall g n x t g', Inv g -> Fresh g -> g_get g n = Some x -> NoDup (keys t) ->
+  upd (length g) (g_mod g n (set_own t)) n = Some g' ->
+  (forall c, c < length g -> compiled_b g c = true -> anc_b (length g) g n c = true -> lb_b (length g) g n c = true) ->
+  Fresh g'.
 Proof.
-  intros g n x ms I Fg E Hexp k y Ey Cy.
-  destruct (mixed_rel g n x ms E) as [L Old]. cbn zeta in Old.
-  assert (k < length g) as Lk by (rewrite <- L; eapply g_get_lt; eauto).
-  destruct (g_get_some _ _ Lk) as [x0 Ex0]. destruct (Old _ _ Ex0) as [y' [Ey' R]]. rewrite Ey in Ey'. injection Ey' as <-.
-  destruct R as (_ & _ & _ & R4 & R5 & _). rewrite R5, (Fg k x0 Ex0) by congruence.
-  symmetry. apply iso_defns with (N := n); auto; [apply iso_mixed; auto|].
-  apply Hexp; auto. unfold compiled_b. rewrite Ex0. congruence.
+  intros g n x t g' I Fg E N U Hexp.
+  eapply Fresh_upd_gen with (g1 := g_mod g n (set_own t)); eauto.
+  - apply Inv_set_own; auto. - apply length_g_mod.
+  - intros m Ne. rewrite g_get_mod_other; auto.
+  - intros k x1 Ex1. rewrite g_get_mod in Ex1. destruct (Nat.eqb k n) eqn:Ekn.
+    + apply Nat.eqb_eq in Ekn. subst. rewrite E in Ex1. cbn in Ex1. injection Ex1 as <-. eauto.
+    + eauto.
+  - intros a k. apply Lb_same. apply same_set_own.
+  - eapply g_get_lt; eauto.
+Qed.
+
+Lemma Fresh_mixed_upd : forall g n x ms g', Inv g -> Fresh g -> g_get g n = Some x -> wf_b (mixed g n x ms) = true ->
+  upd (length g) (mixed g n x ms) n = Some g' ->
+  (forall c, c < length g -> compiled_b g c = true -> anc_b (length g) g n c = true -> lb_b (length g) g n c = true) ->
+  Fresh g'.
+Proof.
+  intros g n x ms g' I Fg E W U Hexp. destruct (mixed_rel g n x ms E) as [L Old]. cbn zeta in Old.
+  eapply Fresh_upd_gen with (g1 := mixed g n x ms); eauto.
+  - apply Inv_mixed; auto.
+  - intros m Ne. symmetry. apply (iso_dm _ _ _ (iso_mixed g n x ms E) m Ne).
+  - intros k x1 Ex1. destruct (mixed_back _ _ _ _ _ _ E Ex1) as (z & Ez & _ & _ & A4 & A5 & _). eauto.
+  - intros a k. apply Lb_to_mixed. auto.
+  - eapply g_get_lt; eauto.
 Qed.
 
 Lemma exposed_mod_nil : forall g n, exposed_mod g n = [] ->
@@ -273,13 +412,6 @@ Lemma exposed_mod_nil : forall g n, exposed_mod g n = [] ->
 Proof.
   intros g n H c Lc Cc Ac. pose proof (filter_nil _ _ _ H c) as Q. cbv beta in Q.
   rewrite Cc, Ac in Q. cbn in Q. destruct (lb_b (length g) g n c); auto. discriminate Q. apply in_seq. lia.
-Qed.
-
-Lemma exposed_mix_nil : forall g n, exposed_mix g n = [] ->
-  forall c, c < length g -> compiled_b g c = true -> anc_b (length g) g n c = false.
-Proof.
-  intros g n H c Lc Cc. pose proof (filter_nil _ _ _ H c) as Q. cbv beta in Q.
-  rewrite Cc in Q. cbn in Q. apply Q. apply in_seq. lia.
 Qed.
 
 Lemma Fresh_step : forall g o, Inv g -> Fresh g -> (is_done (snd (step g o)) = false \/ exposed g o = []) -> Fresh (step_g g o).
@@ -306,8 +438,9 @@ Proof.
         -- rewrite anc_b_new in Ac; [discriminate | auto | lia].
     + destruct (do_modify (created g (n :: mixins) lb) (length g) (t_register sig l)) as [g2 o2].
       cbn in *. destruct o2; cbn; auto. congruence.
-  - destruct (do_add_mixins_cases g n ms) as [(x & E & V & Lk & W & ->)|(_ & _ & ->)]; auto.
-    cbn. apply Fresh_mixed; auto. apply exposed_mix_nil. auto.
+  - destruct (do_add_mixins_cases g n ms) as [(x & E & Lk & F & ->)|[(x & g' & E & V & Lk & F & W & U & ->)|(_ & -> & _)]]; auto.
+    cbn. eapply Fresh_mixed_upd; eauto. apply exposed_mod_nil.
+    fold (nself n ms) in H. destruct (nself n ms); [congruence|]. exact H.
   - rewrite do_register_unfold.
     destruct (do_modify_cases g n (t_register sig l)) as [(x & t & g' & E & Lk & F & U & ->)|[_ ->]]; auto.
     cbn. eapply Fresh_modify; eauto.
@@ -352,4 +485,26 @@ Proof.
   clear -F2 Fg Lm. induction F2; constructor; auto.
   - rewrite fresh_obs; auto. apply Lm. left. auto.
   - apply IHF2. intros. apply Lm. right. auto.
+Qed.
+
+(* the all-plain special case of lock_full *)
+Lemma NLPath_Anc : forall g c a, NLPath g c a ->
+  exists y m, g_get g c = Some y /\ n_linkback y = false /\ In m (n_mixins y) /\ Anc g a m.
+Proof.
+  intros g c a H. induction H as [c y m Ec Ly Im | c y m a Ec Ly Im _ IH].
+  - exists y, m. repeat split; auto. constructor.
+  - exists y, m. repeat split; auto. destruct IH as (y' & m' & Ey' & _ & Im' & An). eapply anc_step; eauto.
+Qed.
+
+Lemma lock_nlpath : forall ops c y a, let g := run ops in
+  g_get g c = Some y -> n_compiled y = true -> NLPath g c a -> exists w, g_get g a = Some w /\ n_locked w = true.
+Proof.
+  intros ops c y a g Ec Cy P. destruct (NLPath_Anc _ _ _ P) as (y' & m & Ey' & Ly & Im & An).
+  fold g in Ey'. rewrite Ec in Ey'. injection Ey' as <-. eapply lock_full; eauto.
+Qed.
+
+Lemma lock_closed : forall ops a m z, let g := run ops in
+  g_get g m = Some z -> n_locked z = true -> Anc g a m -> exists w, g_get g a = Some w /\ n_locked w = true.
+Proof.
+  intros ops a m z g Ez Lz An. eapply locked_up; eauto. - apply Inv_run. - apply (LK_run ops).
 Qed.
